@@ -41,6 +41,7 @@ pub struct W {
     pub query_pct: usize,
     pub region_pct: usize,
     pub prewrap_pct: usize,
+    pub park_pct: usize,
 }
 
 fn base() -> W {
@@ -78,6 +79,7 @@ fn base() -> W {
         query_pct: 6,
         region_pct: 10,
         prewrap_pct: 6,
+        park_pct: 25,
     }
 }
 
@@ -93,6 +95,7 @@ pub fn weights(profile: &str) -> W {
             w.tiny_pct = 60;
             w.rep = 5;
             w.query_pct = 70;
+            w.park_pct = 45;
             w.save = 6;
             w.margins = 8;
             w.modes = 8;
@@ -1050,20 +1053,24 @@ fn case_huge_geometry(rng: &mut Rng, w: &W, out: &mut impl Write) {
 
 /// one instance, ops drawn from the small state-machine alphabet (with resizes and queries)
 fn case_soup(rng: &mut Rng, w: &W, out: &mut impl Write) {
-    let (mut cols, mut rows) = (rng.range(1, 8), rng.range(1, 6));
+    let park = rng.chance(w.park_pct);
+    let (mut cols, mut rows) = if park { (rng.range(1, 8), rng.range(2, 8)) } else { (rng.range(1, 8), rng.range(1, 6)) };
     let limit = gen_limit(rng, w);
     writeln!(out, "N 0 {} {} {}", cols, rows, lim_tok(limit)).unwrap();
     if rng.chance(70) {
         writeln!(out, "S 0 {}", hex_encode(&gen_fill(rng, cols, rows))).unwrap();
     }
-    if rng.chance(25) && rows >= 2 {
+    if park && rows >= 2 {
         // park the cursor outside the scroll region with origin mode on (needs DECOM, a save, new
         // margins and a restore in that order - too rare to arise by chance)
         let s = gen_park_outside(rng, cols, rows);
         writeln!(out, "S 0 {}", hex_encode(&s)).unwrap();
         // ... and move around vertically while parked there
         for _ in 0..rng.range(2, 6) {
-            let m = match rng.below(10) {
+            let m = match rng.below(14) {
+                10 | 11 => format!("\u{1b}[{}{}", rng.range(1, 3), *rng.pick(&['A', 'B', 'B'])),
+                12 => format!("\u{1b}[{}{}", rng.range(1, 3), *rng.pick(&['C', 'D'])),
+                13 => format!("\u{1b}[{}G", rng.range(1, cols)),
                 7 => format!("\u{1b}[{}L", *rng.pick(&["", "1", "2"])),
                 8 => format!("\u{1b}[{}M", *rng.pick(&["", "1", "2"])),
                 9 => format!("\u{1b}[{}", *rng.pick(&['S', 'T'])),
@@ -1075,6 +1082,11 @@ fn case_soup(rng: &mut Rng, w: &W, out: &mut impl Write) {
                 _ => format!("\u{1b}[{}e", rng.range(1, 2)),
             };
             writeln!(out, "S 0 {}", hex_encode(&m)).unwrap();
+            // dump() has a branch of its own for this state (cursor outside the region in origin
+            // mode: restore + relative moves, one arm per direction)
+            if rng.chance(70) {
+                writeln!(out, "DUMP 0").unwrap();
+            }
         }
     }
     let nops = rng.range(6, 40);
@@ -1343,6 +1355,23 @@ fn gen_park_outside(rng: &mut Rng, cols: usize, rows: usize) -> String {
     }
     let save = ["\u{1b}7", "\u{1b}[s", "\u{1b}[?1048h"];
     let restore = ["\u{1b}8", "\u{1b}[u", "\u{1b}[?1048l"];
+    if rng.chance(45) {
+        // wide variant: save anywhere on the full screen (any column), then a small region somewhere:
+        // the restored cursor is above, inside or below it with rows to spare on its side
+        let mut s = String::from("\u{1b}[?6h\u{1b}[r");
+        s.push_str(&format!("\u{1b}[{};{}H", rng.range(1, rows), rng.range(1, cols + 1)));
+        if rng.chance(30) {
+            s.push_str(&gen_sgr(rng));
+        }
+        s.push_str(*rng.pick(&save));
+        if rows >= 2 {
+            let t = rng.range(1, rows - 1);
+            let b = (t + rng.range(1, 2)).min(rows);
+            s.push_str(&format!("\u{1b}[{};{}r", t, b));
+        }
+        s.push_str(*rng.pick(&restore));
+        return s;
+    }
     let mut s = String::from("\u{1b}[?6h");
     s.push_str(&margins(rng, rows));
     if rng.chance(50) {
